@@ -106,6 +106,10 @@ WARNING_FAULTS = [
     ("missing-newline", "parse", "warning", ".even\nnop nop"),
     ("fp-register-alias", "compile", "warning", ".even\nldf r0, ac1"),
     ("suspicious-const", "parse", "warning", "clc = 5"),
+    # a diagnostic whose source span crosses a line break: word list continued on the next line, then
+    # another instruction on that same line
+    ("multiline-wordlist", "parse", "warning", ".even\n7, 10,\n 11, 12 nop"),
+    ("multiline-wordlist2", "parse", "warning", ".even\n1, 2,\n\t3 halt\n.word 4"),
 ]
 
 BARE_DIAG_RE = re.compile(rb"^[^\n]*:\d+:\d+: (Error|Warning): [^\n]*$")
@@ -132,6 +136,12 @@ def plant(rng, prog, n_err, n_warn):
             pos = rng.randint(0, hi)
             if tag == "unterminated-dq":
                 text = '.ascii "abc'
+            elif rng.random() < 0.3:
+                # the offending line as real sources have it: indented with tabs, followed by a comment
+                # with non-ASCII text, or very long (the report handlers quote and colourise it)
+                deco = rng.choice(["\t%s", "\t\t%s\t; комментарий — ünïcode ✓", "%s ; " + "x" * rng.choice([40, 300, 2000]),
+                                   "    %s\t;\ttabs\tin\tthe\tcomment"])
+                text = "\n".join(deco % line for line in text.split("\n"))
             f.stmts.insert(pos, gen.Stmt(text, "planted", {"tag": tag, "phase": phase, "sev": sev}))
             planted.append((tag, phase, sev, f.path))
     prog.planted = planted
@@ -327,10 +337,14 @@ def finish_cli_case(rng, prog, allow_stdin=True, want_outputs=None, force_lst=Fa
     k = rng.random()
     want_o = k < 0.45 if want_outputs is None else (want_outputs and k < 0.6)
     if want_o:
-        stem = rng.choice(["out", "OUT", "a.b", "res", "x y", "prog"])
-        ext = rng.choice([".bin", ".BIN", ".Bin", ".raw", "", ".dat", ".bin.bak", ".rom"])
+        stem = rng.choice(["out", "OUT", "a.b", "res", "x y", "prog", "~dump", "~tmp"])
+        ext = rng.choice([".bin", ".BIN", ".Bin", ".raw", "", ".dat", ".bin.bak", ".rom", ".bin.bin", ".raw.raw", ".b.bin"])
         sub = rng.choice(["", "", "", "build/", "./", "../w/", "nodir/", "src/"])
         o = sub + stem + ext
+        if rng.random() < 0.05:
+            o = sub + rng.choice(["bin", ".bin", "raw", "x.bin.", "BIN"])       # names that merely look like suffixes
+        if rng.random() < 0.04:
+            o = rng.choice(["~dump", "~tmp", "~dump x"])        # looks like a device name, is an ordinary file
         if rng.random() < 0.08:
             o = rng.choice(["-", "-.bin", "-.raw", "-.x"])
         elif rng.random() < 0.1:
